@@ -72,7 +72,9 @@ func genC04W2(seed uint64) *Scenario {
 		sc.Peer = append(sc.Peer, PeerOp{Kind: "settle", Sync: true})
 		sc.Peer = append(sc.Peer, PeerOp{Kind: "crash", Sync: true})
 		if g.pct(50) {
-			sc.Peer = append(sc.Peer, PeerOp{Kind: "wait", Dur: 26 * time.Hour, Sync: true})
+			// (the receiver looks for an unknown predecessor in its log one more
+			// day back with every 10 s retry)
+			sc.Peer = append(sc.Peer, PeerOp{Kind: "wait", Dur: g.dur(26*time.Hour, 50*time.Hour, 75*time.Hour), Sync: true})
 		}
 	}
 	for _, i := range order {
